@@ -7,7 +7,7 @@ BINS = True
 BUDGET = {"quick": 2400, "thorough": 40000}
 LEVEL_TEXT = ("Lean theorems over all byte strings for the reader / framing / client automata "
               "(C01_reader, C01_partial, C01_full_false ...), tied to the code by regenerated facts and a "
-              "differential run of the real reader, server Read, client Write and the dcat binary")
+              "differential run of the real reader, server Read, client Write and the dcat binary; end-to-end inputs also as .gz (one and several members), .gzip and .zst")
 TRUSTED = ["Lean 4 kernel", "axioms: propext, Quot.sound, Classical.choice (at most)",
            "fact extractor /verif/extract", "overlay harness + dtmodel driver + this diff",
            "modelled not verified: gzip/zstd decoders, bufio, os file I/O, io.Copy 32 KiB buffer, SSH transport, fmt.Print"]
